@@ -43,6 +43,10 @@ struct Arith {
         if constexpr (Op <= 1) {
             mpz_class al = za * zpow(radix, EL - Emin), ar = zb * zpow(radix, ER - Emin);
             if (!in_range<aligned_t<LRep, EL - Emin>>(al) || !in_range<aligned_t<RRep, ER - Emin>>(ar)) return o.discard("aligned-operand-does-not-fit");
+            // ... and so does the alignment factor radix^gap itself: no non-zero operand could be aligned otherwise, and the
+            // multiplication / shift by it is not defined in that type even for zero (int64 exponent 0 with radix-10 exponent -20)
+            if (!in_range<aligned_t<LRep, EL - Emin>>(zpow(radix, EL - Emin)) || !in_range<aligned_t<RRep, ER - Emin>>(zpow(radix, ER - Emin)))
+                return o.discard("alignment-factor-does-not-fit");
         }
         mpz_class got_rep;
         int got_exp = 0, got_radix = 0;
